@@ -32,6 +32,11 @@ def run(chk):
     for r, f in (("R10.1", r10_1), ("R10.2", r10_2), ("R10.3", r10_3), ("R10.4", r10_4), ("R10.5", r10_5)):
         if chk.want(r):
             f(chk, repo, cr)
+    chk.rule("R10.7", "the readers identify the space group through a lookup that is order-independent and returns the stored number and "
+                      "setting choice (= C02 R02.1 lookup by operation list, R02.3 LATT sign)", 4)
+    if chk.want("R10.7"):
+        from ..inherit import inherit
+        inherit(chk, "R10.7", "c02", ["R02.1", "R02.3"])
     chk.rule("R10.6", "memo discipline of class Crystal (= C14 R14.2) and no caching decorator on file readers/writers", 3)
     if chk.want("R10.6"):
         from .c14 import crystal_memo_rule
@@ -268,6 +273,23 @@ def r10_2(chk, repo, cr):
     dg = [e for e in pe.events if e.kind == "assign" and e.name == "deg"]
     chk.ob("R10.2", "crystal/unit_cell.py", pq, "parameters = (lengths, angles converted to degrees)",
            okpar and bool(dg) and obj_init(dg[0].value).key() == "degrees(self.angles)", found=str(pe.returns[0].value))
+    # equal-value snapping: X[mask_i] = X[i] is only the identity up to the tolerance when the mask was computed from X itself
+    snaps = 0
+    for e in pe.events:
+        if e.kind != "store":
+            continue
+        t = e.target.as_atom()
+        if not (t and t[0] == "sub" and t[1].as_atom() and t[1].as_atom()[0] == "obj" and len(t[2]) == 1):
+            continue
+        mask = t[2][0]
+        if not find_atoms(mask, lambda a: a[0] in ("lt", "le", "eq")):
+            continue
+        snaps += 1
+        objs = {P.atom(a).key() for a in find_atoms(mask, lambda a: a[0] == "obj")} | {P.atom(a).key() for a in find_atoms(e.value, lambda a: a[0] == "obj")}
+        chk.ob("R10.2", "crystal/unit_cell.py", pq, "a masked overwrite X[mask] = X[i] uses a mask computed from X itself (lengths snap to lengths, angles to angles)",
+               objs == {t[1].key()}, node=e.node, fingerprint=f"snap:{t[1].as_atom()[1]}:{e.value}", expected=f"mask and value derived from {t[1]} only",
+               found=sorted(objs))
+    chk.need(snaps == 0 or snaps >= 2, f"{pq}: unexpected snapping structure")
     # identity omitted / seeded ; LATT and reduced SYMM
     sy = d["SYMM"].key()
     chk.ob("R10.2", CR, wq, "SYMM lists the reduced operations without the identity; LATT is the group's LATT number",
